@@ -332,10 +332,14 @@ def run(res, tier):
             v = A.strip_casts(c.args()[1])
             if v['k'] != 'BinaryOperator' or v.get('op') != '+':
                 continue
-            rd = [x for x in v['ch'][0].walk() if x.is_call() and (x.get('q') or '') == 'UMReadInt32' and x.args() and A.strip_casts(x.args()[0]).get('d') == A.strip_casts(c.args()[0]).get('d')]
-            if not rd or 'd' not in A.strip_casts(c.args()[0]):
+            inc = None
+            for (a_, b_) in ((v['ch'][0], v['ch'][1]), (v['ch'][1], v['ch'][0])):      # old count + k, in either order
+                rd = [x for x in a_.walk() if x.is_call() and (x.get('q') or '') == 'UMReadInt32' and x.args() and A.strip_casts(x.args()[0]).get('d') == A.strip_casts(c.args()[0]).get('d')]
+                if rd and 'd' in A.strip_casts(c.args()[0]):
+                    inc = A.strip_casts(b_)
+                    break
+            if inc is None:
                 continue
-            inc = A.strip_casts(v['ch'][1])
             loops = [l for l in f.walk() if l['k'] == 'ForStmt']
             bound = None
             for l in loops:
